@@ -99,15 +99,28 @@ struct TouchGen {
                 if (!tips.empty()) { rotateRing(p.B, tips[r.below(tips.size())]); if (r.chance(50)) std::reverse(p.B.begin(), p.B.end()); cnt("touch_start_at_tip"); } }
             else spin(p.B, false);
             spin(p.A, r.chance(30)); }
+        // roles 2, 3: often the box gets further (unrelated) holes in a strip added on one side, at random positions of the hole list,
+        // so that the hole that matters is not the only / first / last one
+        std::vector<Ring> decoys;
+        if (role >= 2 && r.chance(50)) {
+            double x0 = p.box[0].x, x1 = x0, y0 = p.box[0].y, y1 = y0; for (auto& q : p.box) { x0 = std::min(x0, q.x); x1 = std::max(x1, q.x); y0 = std::min(y0, q.y); y1 = std::max(y1, q.y); }
+            int side = (int) r.below(4), nd = r.range(1, 2); double sx0, sx1, sy0, sy1;      // the open strip that is added
+            if (side == 0) { sx0 = x0 - 5; sx1 = x0; sy0 = y0; sy1 = y1; x0 -= 5; } else if (side == 1) { sx0 = x1; sx1 = x1 + 5; sy0 = y0; sy1 = y1; x1 += 5; }
+            else if (side == 2) { sx0 = x0; sx1 = x1; sy0 = y0 - 5; sy1 = y0; y0 -= 5; } else { sx0 = x0; sx1 = x1; sy0 = y1; sy1 = y1 + 5; y1 += 5; }
+            p.box = closed({{x0, y0}, {x1, y0}, {x1, y1}, {x0, y1}});
+            for (int i = 0; i < nd; i++) { bool horiz = side >= 2; double lo = horiz ? sx0 + 1 : sy0 + 1, hi = horiz ? sx1 - 1 : sy1 - 1, w = (hi - lo) / nd; if (w < 2) break;
+                double a = lo + std::floor(w * i), b = a + std::max(1.0, std::floor(w) - 1.0), c = (horiz ? sy0 : sx0) + 1, d = c + r.range(1, 3);
+                Ring q = horiz ? (r.chance(50) ? closed({{a, c}, {b, c}, {b, d}, {a, d}}) : closed({{a, c}, {b, c}, {a, d}})) : (r.chance(50) ? closed({{c, a}, {d, a}, {d, b}, {c, b}}) : closed({{c, a}, {d, a}, {c, b}}));
+                spin(q, false); decoys.push_back(q); }
+            cnt("touch_decoy_holes_" + std::to_string(decoys.size())); }
         spin(p.box, false);
         HGeo g;
         switch (role) {
         case 0: g.type = 6; g.kids = {poly({p.A}), poly({p.B})}; if (r.chance(15)) { Ring far = closed({{-20, -20}, {-18, -20}, {-18, -18}}); g.kids.push_back(poly({far})); } break;
         case 1: g = poly({p.A, p.B}); break;
-        case 2: g = poly({p.box, p.A, p.B}); break;
-        default: g.type = 6; g.kids = {poly({p.box, p.A}), poly({p.B})}; }
+        case 2: { std::vector<Ring> hs = {p.A, p.B}; if (r.chance(50)) std::swap(hs[0], hs[1]); for (auto& q : decoys) hs.insert(hs.begin() + (long) r.below(hs.size() + 1), q); hs.insert(hs.begin(), p.box); g = poly(hs); break; }
+        default: { std::vector<Ring> hs = {p.A}; for (auto& q : decoys) hs.insert(hs.begin() + (long) r.below(hs.size() + 1), q); hs.insert(hs.begin(), p.box); g.type = 6; g.kids = {poly(hs), poly({p.B})}; } }
         if (g.type == 6 && r.chance(50)) std::reverse(g.kids.begin(), g.kids.end());
-        if (g.type == 3 && g.seqs.size() == 3 && r.chance(50)) std::swap(g.seqs[1], g.seqs[2]);
         // integer shear (keeps the lattice, incidences, orientation): the touched edge leaves the axis directions
         if (r.chance(45)) { int s = r.range(1, 2) * (r.chance(50) ? 1 : -1); bool xs = r.chance(50);
             eachSeq(g, [&](std::vector<HP>& q, bool, int) { for (auto& v : q) { if (xs) v.x += s * v.y; else v.y += s * v.x; } }); cnt("touch_sheared"); }
